@@ -319,6 +319,10 @@ func TestC03(t *testing.T) {
 				if hasRecursiveTypes(src) {
 					return vlib.Failf(keyF27, "results differ between two runs of a project with recursive types")
 				}
+				if strings.Contains(src, "regex") && strings.HasPrefix(k1, "OK ") && strings.HasPrefix(k2, "OK ") &&
+					vlib.MaskExamples(strings.SplitN(k1[3:], "\n", 2)[0]) == vlib.MaskExamples(strings.SplitN(k2[3:], "\n", 2)[0]) {
+					return vlib.Failf(vlib.KeyRegexExample, "results differ only in regex-derived examples")
+				}
 				return vlib.Failf("nondeterministic: same file value processed twice", "the same file value processed twice gives different results\n--- first:\n%s\n--- second:\n%s\n--- source:\n%s", trunc(k1, 400), trunc(k2, 400), trunc(src, 1000))
 			}
 			if r1.Accepted {
